@@ -258,6 +258,30 @@ impl<'a> Evaluator<'a> {
                 Val::Any => PatM::Unknown("tuple pattern against unknown value".into()),
                 _ => PatM::No,
             },
+            // slice patterns `[a, b]`, `[first, ..]`, `[.., last]`, `[first, .., last]`
+            Pat::Slice(ps) => match v {
+                Val::List(items) => {
+                    let pats: Vec<&syn::Pat> = ps.elems.iter().collect();
+                    let rest_at = pats.iter().position(|p| matches!(p, Pat::Rest(_)));
+                    let (front, back): (&[&syn::Pat], &[&syn::Pat]) = match rest_at {
+                        Some(i) => (&pats[..i], &pats[i + 1..]),
+                        None => (&pats[..], &[]),
+                    };
+                    if (rest_at.is_none() && items.len() != pats.len()) || items.len() < front.len() + back.len() {
+                        return PatM::No;
+                    }
+                    let mut r = PatM::Yes;
+                    for (p, it) in front.iter().zip(items.iter()) {
+                        r = and(r, self.pat_match(p, it, env));
+                    }
+                    for (p, it) in back.iter().rev().zip(items.iter().rev()) {
+                        r = and(r, self.pat_match(p, it, env));
+                    }
+                    r
+                }
+                Val::Any => PatM::Unknown("slice pattern against unknown value".into()),
+                _ => PatM::No,
+            },
             Pat::Lit(l) => match lit_val(&l.lit) {
                 Ok(lv) => self.val_eq(&lv, v),
                 Err(e) => PatM::Unknown(e),
@@ -432,19 +456,83 @@ impl<'a> Evaluator<'a> {
 
     /// `match place.as_mut() { Some(x) => .. }` / `if let Some(x) = place.as_mut()`: `x` aliases the payload of
     /// `place`, so what the arm did to `x` is written back.
+    /// The arm of a `match` / `if let` over a mutable place (`self`, `*self`, `x.as_mut()`, `&mut x`, or a tuple of such)
+    /// binds references into that place: what the arm assigned through them (`*value = ..`) is written back into the place.
     fn alias_writeback(&self, scrutinee: &syn::Expr, pat: &syn::Pat, arm_env: &Env, env: &mut Env) {
-        let syn::Expr::MethodCall(mc) = scrutinee else { return };
-        if mc.method != "as_mut" {
+        // an or-pattern: the alternative that matches the scrutinee is the one whose bindings are live
+        if let syn::Pat::Or(o) = pat {
+            let mut probe = env.clone();
+            if let Ok(v) = self.eval(scrutinee, &mut probe) {
+                for c in o.cases.iter() {
+                    let mut scratch = env.clone();
+                    if matches!(self.pat_match(c, &v, &mut scratch), PatM::Yes) {
+                        return self.alias_writeback(scrutinee, c, arm_env, env);
+                    }
+                }
+            }
             return;
         }
-        let Some(place) = self.place_of(&mc.receiver) else { return };
-        let syn::Pat::TupleStruct(ts) = pat else { return };
-        if ts.elems.len() != 1 || ts.path.segments.last().map(|s| s.ident.to_string()).as_deref() != Some("Some") {
-            return;
+        match (scrutinee, pat) {
+            (syn::Expr::Tuple(t), syn::Pat::Tuple(pt)) if t.elems.len() == pt.elems.len() => {
+                for (e, p) in t.elems.iter().zip(pt.elems.iter()) {
+                    self.alias_writeback(e, p, arm_env, env);
+                }
+                return;
+            }
+            (syn::Expr::Paren(p), _) => return self.alias_writeback(&p.expr, pat, arm_env, env),
+            _ => {}
         }
-        let syn::Pat::Ident(pi) = &ts.elems[0] else { return };
-        if let (Some(nv), Some(t)) = (arm_env.get(&pi.ident.to_string()).cloned(), place_get_mut(env, &place)) {
-            *t = Val::some(nv);
+        let place_expr: &syn::Expr = match scrutinee {
+            syn::Expr::MethodCall(mc) if mc.method == "as_mut" && mc.args.is_empty() => &mc.receiver,
+            syn::Expr::Reference(r) if r.mutability.is_some() => &r.expr,
+            syn::Expr::Unary(u) if matches!(u.op, syn::UnOp::Deref(_)) && tok(&u.expr) == "self" => &u.expr,
+            syn::Expr::Path(p) if p.path.is_ident("self") => scrutinee,
+            _ => return,
+        };
+        let Some(place) = self.place_of(place_expr) else { return };
+        let Some(orig) = place_get_mut(env, &place).map(|v| v.clone()) else { return };
+        fn rebuild(pat: &syn::Pat, orig: &Val, arm_env: &Env) -> Val {
+            use syn::Pat;
+            match pat {
+                Pat::Ident(pi) if pi.subpat.is_none() && !is_upper_first(&pi.ident.to_string()) => arm_env.get(&pi.ident.to_string()).cloned().unwrap_or_else(|| orig.clone()),
+                Pat::Reference(r) => rebuild(&r.pat, orig, arm_env),
+                Pat::Paren(p) => rebuild(&p.pat, orig, arm_env),
+                Pat::Type(t) => rebuild(&t.pat, orig, arm_env),
+                Pat::TupleStruct(ts) => match orig {
+                    Val::Ctor(n, pos, f) if pos.len() == ts.elems.len() && !ts.elems.iter().any(|e| matches!(e, Pat::Rest(_))) => {
+                        Val::Ctor(n.clone(), ts.elems.iter().zip(pos.iter()).map(|(p, o)| rebuild(p, o, arm_env)).collect(), f.clone())
+                    }
+                    _ => orig.clone(),
+                },
+                Pat::Struct(ps) => match orig {
+                    Val::Ctor(n, pos, f) => {
+                        let mut f2 = f.clone();
+                        for fp in ps.fields.iter() {
+                            let k = tok(&fp.member);
+                            if let Some(o) = f.get(&k) {
+                                f2.insert(k, rebuild(&fp.pat, o, arm_env));
+                            }
+                        }
+                        Val::Ctor(n.clone(), pos.clone(), f2)
+                    }
+                    _ => orig.clone(),
+                },
+                Pat::Tuple(t) => match orig {
+                    Val::Tuple(vs) if vs.len() == t.elems.len() => Val::Tuple(t.elems.iter().zip(vs.iter()).map(|(p, o)| rebuild(p, o, arm_env)).collect()),
+                    _ => orig.clone(),
+                },
+                _ => orig.clone(),
+            }
+        }
+        // `x.as_mut()` on an Option place matches `Some(inner)`: the rebuilt value is the Option again
+        let nv = rebuild(pat, &orig, arm_env);
+        // an arm that assigned to the place itself (`*self = ..`) has already changed it: do not overwrite that
+        if nv != orig {
+            if let Some(t) = place_get_mut(env, &place) {
+                if *t == orig {
+                    *t = nv;
+                }
+            }
         }
     }
 
